@@ -123,22 +123,94 @@ Theorem server_step_routes_by_reference : forall (St P Rep : Type) (serve : nat 
   = Ok (rstep St (srequest P) Rep (spec_serve St P Rep serve) (spec_route P ops) refuse st r).
 Proof. exact server_step_spec. Qed.
 
-(** HTTP/1.1 histories over plain TCP as exercised by the correspondence: model of the code
-    = specification server, for every history, unless a request has no Host header while no
-    default host is configured (known class absent-host-closed: the connection is closed
-    without an answer instead of a 409). *)
-Theorem connection_histories_eq_spec : forall (ops : list op) (c : collection),
-  build ops = Ok c ->
-  forall (reqs : list (list bytes * bytes)) (st : nat -> hstate),
-  Forall (fun r => fst r <> [] \/ default_index O ops <> None) reqs ->
-  conn_history V1 c st reqs = map Ok (conn_spec ops st reqs).
-Proof. exact conn_history_spec. Qed.
+(** ---- histories over loopback connections: plain HTTP/1.x, HTTP/1.1 over TLS, HTTP/2 over TLS ----
+    [wire_history auth_ok fixed c st reqs] is the model of today's code ([handle_connection] with the
+    TLS certificate resolver, [kvarn_async::read::request], [get_from_request], the per-host marker
+    handlers and response caches); [auth_ok] stands for [http::uri::Authority::try_from], of which only
+    "accepts nothing but text" is used.  For EVERY configuration and EVERY history — any mix of
+    connections, SNI values, Host lines, [:authority], methods and conditional requests — none of whose TLS
+    connections is refused during the handshake (known class tls-handshake-refused), the replies are those
+    of the specification server: the product of the per-host handlers and caches, routed by the reference
+    resolver from the SNI of the connection if there is one, else from the Host header. *)
+Theorem wire_histories_eq_spec : forall (auth_ok : bytes -> bool),
+  (forall h, auth_ok h = true -> is_text h) ->
+  forall (ops : list op) (c : collection), build ops = Ok c ->
+  forall (reqs : list wreq) (st : nat -> hstate),
+  Forall (fun r => wf_wreq r /\ tls_refused ops r = false) reqs ->
+  wire_history auth_ok fixed c st reqs = map Ok (wire_spec ops st reqs).
+Proof. exact wire_history_spec. Qed.
 
-Theorem absent_host_refuted :
-  exists ops c p, build ops = Ok c /\
-    conn_history V1 c (fun _ => hstate0) [([], p)] = [Ok WClosed] /\
-    conn_spec ops (fun _ => hstate0) [([], p)] = [W409].
+(** The SNI of the connection decides: with an SNI, Host header and [:authority] do not matter. *)
+Theorem sni_decides : forall (ops : list op) (r : wreq) (s : bytes),
+  w_tls r = true -> w_sni r = Some s -> wire_route ops r = reference_general ops (Some s) None.
+Proof. exact wire_route_sni. Qed.
+
+(** Over TLS no request is answered with 409: the lookup that chose the certificate found a host, so
+    the lookup for the request finds one (refusals happen in the handshake). *)
+Theorem tls_never_409 : forall (auth_ok : bytes -> bool),
+  (forall h, auth_ok h = true -> is_text h) ->
+  forall (ops : list op) (c : collection) (st st' : nat -> hstate) (r : wreq),
+  build ops = Ok c -> wf_wreq r -> w_tls r = true ->
+  wire_request auth_ok fixed c st r <> Ok (st', W409).
+Proof. intros auth_ok Ha ops c st st' r. exact (wire_tls_no_409 auth_ok Ha ops c st r st'). Qed.
+
+(** A refused handshake changes no state. *)
+Theorem tls_refusal_changes_nothing : forall (auth_ok : bytes -> bool) (ops : list op) (c : collection)
+    (st : nat -> hstate) (r : wreq) (fx : fixes),
+  build ops = Ok c -> tls_refused ops r = true -> wire_request auth_ok fx c st r = Ok (st, WNoTls).
+Proof. exact wire_request_refused. Qed.
+
+(** What exactly [Authority::try_from] accepts makes no difference for the replies of the repaired code. *)
+Theorem authority_parser_irrelevant : forall (auth1 auth2 : bytes -> bool) (ops : list op) (c : collection)
+    (st : nat -> hstate) (r : wreq),
+  (forall h, auth1 h = true -> is_text h) -> (forall h, auth2 h = true -> is_text h) ->
+  build ops = Ok c -> wf_wreq r ->
+  wire_request auth1 fixed c st r = wire_request auth2 fixed c st r.
+Proof. exact wire_request_auth_irrelevant. Qed.
+
+(** Isolation on these histories (instance of [host_history_independence]): two histories with the same
+    requests for host [i] — whatever else is asked of the other hosts, for the same paths, over whichever
+    connections — give the same replies to them. *)
+Theorem wire_isolation : forall (ops : list op) (reqs reqs' : list wreq) (st st' : nat -> hstate) (i : nat),
+  st i = st' i ->
+  filter (wire_routed_to ops i) reqs = filter (wire_routed_to ops i) reqs' ->
+  wire_replies_for ops i reqs (wire_spec ops st reqs) = wire_replies_for ops i reqs' (wire_spec ops st' reqs').
+Proof. exact wire_isolation_lemma. Qed.
+
+(** The code before the three repairs of this round violated the property (each witness is replayed on
+    the real code by the corpus; the last conjunct is the repaired code on the same witness). *)
+Theorem absent_host_refuted : forall auth_ok : bytes -> bool,
+  exists ops c r, build ops = Ok c /\
+    wire_history auth_ok snapshot c (fun _ => hstate0) [r] = [Ok WClosed] /\
+    wire_spec ops (fun _ => hstate0) [r] = [W409] /\
+    wire_history auth_ok fixed c (fun _ => hstate0) [r] = [Ok W409].
 Proof. exact absent_host_closed_refuted. Qed.
+
+Theorem bad_authority_refuted : forall auth_ok : bytes -> bool, auth_ok (B "a b") = false ->
+  exists ops c r, build ops = Ok c /\
+    wire_history auth_ok (mkFixes true false false) c (fun _ => hstate0) [r] = [Ok WClosed] /\
+    wire_spec ops (fun _ => hstate0) [r] = [W200 1 1] /\
+    wire_history auth_ok fixed c (fun _ => hstate0) [r] = [Ok (W200 1 1)].
+Proof. exact bad_authority_closed_refuted. Qed.
+
+Theorem h2_authority_refuted : forall auth_ok : bytes -> bool,
+  exists ops c r, build ops = Ok c /\
+    wire_history auth_ok (mkFixes true true false) c (fun _ => hstate0) [r] = [Ok (W200 1 1)] /\
+    wire_spec ops (fun _ => hstate0) [r] = [W200 0 1] /\
+    wire_history auth_ok fixed c (fun _ => hstate0) [r] = [Ok (W200 0 1)].
+Proof. exact h2_authority_ignored_refuted. Qed.
+
+(** Today's code, known class tls-handshake-refused: (a) unknown SNI, no default host: the handshake is
+    refused instead of a 409; (b) no SNI, no default host, loopback Host header: refused instead of the
+    first host. *)
+Theorem tls_handshake_refuted : forall auth_ok : bytes -> bool,
+  exists ops c ra rb, build ops = Ok c /\
+    tls_refused ops ra = true /\ tls_refused ops rb = true /\
+    wire_history auth_ok fixed c (fun _ => hstate0) [ra] = [Ok WNoTls] /\
+    wire_spec ops (fun _ => hstate0) [ra] = [W409] /\
+    wire_history auth_ok fixed c (fun _ => hstate0) [rb] = [Ok WNoTls] /\
+    wire_spec ops (fun _ => hstate0) [rb] = [W200 0 1].
+Proof. exact tls_handshake_refused_refuted. Qed.
 
 (** ---- non-vacuity: concrete configurations meeting the hypotheses, on every branch ------- *)
 Definition ex_ops : list op :=
@@ -180,8 +252,21 @@ Example ex_frame :
   fst (rstep N unit (nat * N) serve route (0%nat, 0) (fun _ => 7) tt) 1%nat = 7 /\
   fst (rstep N unit (nat * N) serve route (0%nat, 0) (fun _ => 7) tt) 0%nat = 8.
 Proof. split; vm_compute; reflexivity. Qed.
-Example ex_conn_history :
-  conn_spec ex_ops_nodefault (fun _ => hstate0)
-    [([B "a.test"], B "/h/p"); ([B "b.test"], B "/h/p"); ([B "a.test"], B "/h/p"); ([B "zzz"], B "/h/p")]
-  = [W200 0 1; W200 1 1; W200 0 1; W409].
+Example ex_wire_history :
+  wire_spec ex_ops_nodefault (fun _ => hstate0)
+    [get1 TR_PLAIN None [B "a.test"] None; get1 TR_TLS1 (Some (B "b.test")) [B "a.test"] None;
+     get1 TR_H2 (Some (B "a.test")) [] (Some (B "b.test")); get1 TR_PLAIN None [B "zzz"] None;
+     mkW TR_PLAIN None false (B "POST") [B "a.test"] None (B "/h/page") 0;
+     mkW TR_PLAIN None false s_GET [B "a.test"] None (B "/h/page?x") 2]
+  = [W200 0 1; W200 1 1; W200 0 1; W409; W200 0 2; W304].
 Proof. vm_compute. reflexivity. Qed.
+(** the hypotheses of [wire_histories_eq_spec] are met by a history with TLS and HTTP/2 requests *)
+Example ex_wire_hypotheses :
+  Forall (fun r => wf_wreq r /\ tls_refused ex_ops_nodefault r = false)
+    [get1 TR_TLS1 (Some (B "b.test")) [B "a.test"] None; get1 TR_H2 (Some (B "a.test")) [] (Some (B "b.test"))]
+  /\ (forall h, auth_ok_approx h = true -> is_text h).
+Proof.
+  split.
+  - repeat constructor; try (vm_compute; reflexivity); intros a Ht Ha; inversion Ha; subst; vm_compute; reflexivity.
+  - apply auth_ok_approx_text.
+Qed.
